@@ -8,10 +8,10 @@ import numpy as np
 from vk.rtc.harness import run_cases
 from vk.specs import c16 as S
 
-LEVEL = "exploration"
+LEVEL = "other"
 TECHNIQUE = ("contracts evaluated at run time on the real op_mat / model-builder / Quantity functions over bounded-exhaustive inputs, "
              "against independent closed-form, larger-basis, quadrature and dense-assembly oracles "
-             "(bounded stand-in; nothing counted as proved)")
+             "(bounded stand-in); deductive: the periodic wrap-around of TI1DModel (pyvc slice, z3) and construct_j_matrix executed exactly on an indeterminate coupling")
 
 EPS = S.EPS
 KAPPA = 2e4            # generous constant in kappa*eps*scale (a few hundred flops per entry, each bounded by `scale`)
@@ -1087,6 +1087,8 @@ def enumerate_cases(tier, seed):
 
 def check(run):
     from renormalizer.model import basis as ba
+    from props import C16_proof
+    C16_proof.prove(run)
     classes = [ba.BasisSHO, ba.BasisHopsBoson, ba.BasisSineDVR, ba.BasisMultiElectron, ba.BasisMultiElectronVac, ba.BasisSimpleElectron, ba.BasisHalfSpin, ba.BasisDummy]
     declared = {c.__name__ for c in vars(ba).values() if isinstance(c, type) and issubclass(c, ba.BasisSet) and c is not ba.BasisSet}
     cov = {}
